@@ -129,7 +129,9 @@ struct QExpression {
 
     QExpression &operator=(QExpression &&src) noexcept {
         if (this != &src) {
-            if (Type == ExpressionType::SubOperation) {
+            const bool was_sub_operation = (Type == ExpressionType::SubOperation);
+
+            if (was_sub_operation) {
                 // Release the list but keep the member alive: it may be move-assigned below.
                 SubExpressions.Reset();
             }
@@ -144,7 +146,13 @@ struct QExpression {
                 }
 
                 case ExpressionType::SubOperation: {
-                    SubExpressions = Memory::Move(src.SubExpressions);
+                    if (was_sub_operation) {
+                        SubExpressions = Memory::Move(src.SubExpressions);
+                    } else {
+                        // The union holds a number or a variable: there is no list to assign to yet.
+                        Memory::Initialize(&SubExpressions, Memory::Move(src.SubExpressions));
+                    }
+
                     break;
                 }
 
